@@ -132,8 +132,8 @@ def r11_2(prog, out):
     for vname in R.topic_actor.variants:
         for tid in R.variant_targets(R.topic_actor, vname):
             effs = prog.effects(tid)
-            tdel = A.cell("TopicActor", "deleted")
-            if not any((e.touches(tmap) and e.kind in L.REMOVE_KINDS) or (e.kind == "write" and e.touches(tdel)) for e in effs):
+            tdel = A.cell("TopicActor", "deleted", optional=True)
+            if not any((e.touches(tmap) and e.kind in L.REMOVE_KINDS) or (tdel is not None and e.kind == "write" and e.touches(tdel)) for e in effs):
                 continue
             found = True
             key = "topic-delete:%s" % prog.short(tid)
@@ -274,3 +274,119 @@ def r11_5(prog, out):
             out.violation(key, bi.loc(esc[-1]), "create can return Ok without the subscription being attached to its topic", ["bb%d" % x for x in esc][:10])
     if not found:
         raise CheckBroken("manager create flow not found")
+
+
+def flag_false_blocks(prog, R, bi, cell):
+    """blocks only reachable when the bool field `cell` was read as false (the not-yet-deleted arm)"""
+    out = set()
+    if cell is None:
+        return out
+    for blk in bi.body.blocks:
+        if blk.cleanup or blk.idx not in bi.cfg.reach:
+            continue
+        t = blk.term
+        if t.k != "switch" or t.discr is None or t.discr.place is None:
+            continue
+        o = prog.receiver_origin(bi, t.discr)
+        hit = cell in o.cells()
+        if not hit and t.discr.place.is_local():
+            for (db, di) in bi.defs.get(t.discr.place.local, []):
+                if di >= 0:
+                    for op in bi.stmt(db, di).rv.ops:
+                        if op.place is not None and cell in prog.receiver_origin(bi, op.place).cells():
+                            hit = True
+        if hit:
+            arms = dict(t.arms)
+            if 0 in arms:
+                out |= bi.cfg.edge_dominated(blk.idx, arms[0])
+    return out
+
+
+@rule("C11", "R11.6", "a removal by name on behalf of one incarnation is identity-checked or happens at most once per incarnation", floor=3)
+@rule("C01", "R11.6", "a removal by name on behalf of one incarnation is identity-checked or happens at most once per incarnation", floor=3)
+@rule("C10", "R11.6", "a removal by name on behalf of one incarnation is identity-checked or happens at most once per incarnation", floor=3)
+def r11_6(prog, out):
+    R = roles(prog)
+    A = prog.anchors
+    sl = Slicer(prog)
+    # (1) manager-map removals issued by the actors' delete handlers: under the not-yet-deleted arm of the actor's own flag
+    for actor, key_ty, state, label in ((R.topic_actor, "TopicActor", "TopicState", "topic"), (R.sub_actor, "SubscriptionActor", "SubState", "subscription")):
+        cell = A.cell(state, "topics" if label == "topic" else "subscriptions")
+        flag = A.cell(key_ty, "deleted", optional=True)
+        n = 0
+        for vname in actor.variants:
+            for tid in R.variant_targets(actor, vname):
+                rem = [e for e in prog.effects(tid) if e.touches(cell) and e.kind in L.REMOVE_KINDS]
+                if not rem:
+                    continue
+                n += 1
+                bi = prog.info(tid)
+                key = "once-only:%s-manager-removal:%s" % (label, prog.short(tid))
+                ok = flag_false_blocks(prog, R, bi, flag)
+                if flag is None:
+                    out.violation(key, bi.loc(rem[0].bb), "the %s actor removes its name from the manager without a once-only guard (no `deleted` flag): a second Delete that reaches "
+                                  "the old actor removes a newer %s created under the same name" % (label, label))
+                elif all(e.bb in ok for e in rem):
+                    out.holds(key, bi.loc(rem[0].bb), "runs only on the first Delete of this incarnation (under `!self.deleted`)")
+                else:
+                    out.violation(key, bi.loc(rem[0].bb), "the manager entry is removed by name on a path that is not guarded by the actor's `deleted` flag: a stale duplicate "
+                                  "Delete removes a newer %s of the same name" % label)
+        if n == 0:
+            out.undecided("once-only:%s-manager-removal" % label, "", "no handler of the %s actor removes the manager entry" % label)
+    # (2) the topic-side detach: identity-checked, or only requested from under the subscription actor's once-only guard
+    detach_variant = None
+    for vname in R.topic_actor.variants:
+        for tid in R.variant_targets(R.topic_actor, vname):
+            effs = prog.effects(tid)
+            if any(e.touches(R.topic_subs) and e.kind in L.REMOVE_KINDS for e in effs) and not any(e.touches(R.topic_subs) and e.kind == "clear" for e in effs):
+                detach_variant = (vname, tid)
+    if detach_variant is None:
+        raise CheckBroken("detach handler not found")
+    vname, tid = detach_variant
+    bi = prog.info(tid)
+    rem = [e for e in prog.own_effects(tid) if e.touches(R.topic_subs) and e.kind in L.REMOVE_KINDS]
+    ident = (A.ty("Subscription"), "internal_id")
+    checked = False
+    for blk in bi.body.blocks:
+        if blk.cleanup:
+            continue
+        for st in blk.stmts:
+            if st.k == "assign" and st.rv.k == "bin" and st.rv.j["op"] in ("Eq", "Ne"):
+                fs = set()
+                for op in st.rv.ops:
+                    fs |= sl.of(tid, op).fields
+                if ident in fs and all(bi.cfg.dominates(blk.idx, e.bb) for e in rem):
+                    sw = blk.term
+                    checked = True
+        t = blk.term
+        if t.k == "call" and t.callee is not None and t.callee.path in ("std::cmp::PartialEq::eq", "std::cmp::PartialEq::ne", "std::sync::Arc::<T, A>::ptr_eq"):
+            fs = set()
+            for a in t.args:
+                fs |= sl.of(tid, a).fields
+            if (ident in fs or t.callee.path.endswith("ptr_eq")) and all(bi.cfg.dominates(blk.idx, e.bb) for e in rem):
+                checked = True
+    key = "detach-identity:%s" % prog.short(tid)
+    if checked:
+        out.holds(key, bi.loc(rem[0].bb), "the entry is removed only if it is the requesting incarnation (identity comparison dominates the removal)")
+        return
+    # otherwise every requester must sit under the subscription actor's once-only guard
+    cons = sorted({b for b, _, _, _ in prog.constructions(R.topic_actor.request, vname)})
+    root = prog.facts.body(cons[0]).root or cons[0] if cons else None
+    sflag = A.cell("SubscriptionActor", "deleted", optional=True)
+    guarded = True
+    site = None
+    for cid, cb in prog.facts.bodies.items():
+        if cb.crate != "lib" or root is None:
+            continue
+        ci = prog.info(cid)
+        for cbb, t in ci.calls(lambda c: prog.qual(cb, c.target) == root):
+            rb = prog.facts.body(cb.root) if cb.root else cb
+            in_actor = (cb.impl_self or (rb.impl_self if rb else None)) == R.sub_actor.ty
+            if not (in_actor and cbb in flag_false_blocks(prog, R, ci, sflag)):
+                guarded = False
+                site = ci.loc(cbb)
+    if guarded and root is not None:
+        out.holds(key, bi.loc(rem[0].bb), "removed by name, but only requested from under the subscription actor's `!self.deleted` guard (once per incarnation)")
+    else:
+        out.violation(key, site or bi.loc(rem[0].bb), "the topic detaches a subscription by name only, and the request can be issued from a handle of an incarnation that is "
+                      "already deleted: a stale (e.g. racing second) DeleteSubscription detaches a newer subscription created under the same name, which then exists but receives nothing")
